@@ -1,6 +1,7 @@
 import ZV.Model.C09
 import ZV.Proofs.C09
 import ZV.Proofs.C09IP
+import ZV.Generated.C09
 /-!
   C09 — hostname verification follows the documented matching rules.
 
@@ -612,5 +613,194 @@ example : ∃ x ∈ candidateIP [97, 46, 101, 120], ¬ IPChar x :=
 
 example : DottedQuad (candidateIP [91, 49, 46, 50, 46, 51, 46, 52, 93]) 1 2 3 4 :=
   (parseIPv4Fields_spec _ 1 2 3 4).mp (by decide)
+
+
+/-! ### the error VALUE: which `HostnameError.Host` is returned, and what `Error()` prints -/
+
+/-- the `Host` field VerifyHostname stores in its HostnameError: the bracket-stripped text for an
+    IP literal, the host as given otherwise. -/
+def rejHost (h : Str) : Str :=
+  match parseIP (candidateIP h) with
+  | some _ => candidateIP h
+  | none => h
+
+/-- Every call ends in exactly one of two ways: `nil`, or `HostnameError{c, rejHost h}` — no other
+    error kind, no other `Host` value (in particular never the lowered host). -/
+theorem verdict_dichotomy (c : Cert) (h : Str) :
+    verifyHostname c h = .ok .accept ∨ verifyHostname c h = .ok (.reject (rejHost h)) := by
+  unfold verifyHostname rejHost
+  cases hp : parseIP (candidateIP h) with
+  | some ip =>
+    simp only [hp]
+    split
+    · exact Or.inl rfl
+    · exact Or.inr rfl
+  | none =>
+    simp only [hp]
+    split
+    · rcases matchAny_iff (toLowerCaseASCII h) c.dnsNames with ⟨e, _⟩ | ⟨e, _⟩ <;> rw [e]
+      · exact Or.inl rfl
+      · exact Or.inr rfl
+    · obtain ⟨b, hb⟩ := match_no_panic (toLowerCaseASCII c.commonName) (toLowerCaseASCII h)
+      rw [hb]; cases b
+      · exact Or.inr rfl
+      · exact Or.inl rfl
+
+/-- the error is returned exactly when the documented rule fails, and it carries `rejHost h`. -/
+theorem reject_iff (c : Cert) (h x : Str) :
+    verifyHostname c h = .ok (.reject x) ↔ ¬ HostSpec c h ∧ x = rejHost h := by
+  rw [← verifyHostname_iff]
+  rcases verdict_dichotomy c h with e | e
+  · rw [e]; simp
+  · rw [e]
+    constructor
+    · intro hh
+      simp only [Res.ok.injEq, Verdict.reject.injEq] at hh
+      exact ⟨by simp, hh.symm⟩
+    · rintro ⟨_, hx⟩; rw [hx]
+
+/-- a bracketed host that is not `[IP literal]` is not an IP literal as a whole either … -/
+theorem parseIP_none_of_candidate (h : Str) (hn : parseIP (candidateIP h) = none) : parseIP h = none := by
+  unfold candidateIP at hn
+  split at hn
+  · rename_i hc
+    obtain ⟨_, hh, _⟩ := hc
+    cases h with
+    | nil => cases hh
+    | cons a t =>
+      simp only [List.head?_cons, Option.some.injEq] at hh
+      subst hh
+      refine non_ip_charset _ ⟨91, List.mem_cons_self, ?_⟩
+      intro hc
+      rcases hc with hx | hx | hx
+      · revert hx; simp [IsHexCh]
+      · exact absurd hx (by decide)
+      · exact absurd hx (by decide)
+  · exact hn
+
+/-- … hence `HostnameError.Error()` (which re-parses the stored `Host`) takes its IP branch exactly
+    when `VerifyHostname` took its IP branch: message and decision never disagree about the kind of host. -/
+theorem error_branch_consistent (h : Str) :
+    (parseIP (rejHost h)).isSome = (parseIP (candidateIP h)).isSome := by
+  unfold rejHost
+  cases hp : parseIP (candidateIP h) with
+  | some ip => simp only [hp]
+  | none => simp only [parseIP_none_of_candidate h hp]
+
+/-- the three message forms of `Error()`, for ALL certificates and hosts: IP host without IP SANs;
+    otherwise `valid` = the IP SAN texts / the DNS SANs joined by ", " (SAN extension present) / the
+    common name (absent), and "not valid for any names" exactly when `valid` is empty. -/
+theorem errorMsg_forms (c : Cert) (host : Str) (ipStrs : List Str) :
+    hostnameErrorMsg c host ipStrs =
+      if (parseIP host).isSome ∧ c.ipAddresses = [] then msgCannot ++ host ++ msgNoIPSANs
+      else
+        let valid := if (parseIP host).isSome then joinValid [] ipStrs
+                     else if oidSAN ∈ c.extOids then joinComma c.dnsNames else c.commonName
+        if valid = [] then msgNoNames ++ host else msgValidFor ++ valid ++ msgNot ++ host := by
+  unfold hostnameErrorMsg msgTail
+  have hs : hasSANExtension c = true ↔ oidSAN ∈ c.extOids := hasSAN_iff c
+  cases hp : parseIP host with
+  | some ip =>
+    cases hi : c.ipAddresses with
+    | nil => simp
+    | cons a t => simp [List.length_eq_zero_iff]
+  | none =>
+    by_cases hh : hasSANExtension c = true
+    · simp [hh, hs.mp hh, List.length_eq_zero_iff]
+    · have : oidSAN ∉ c.extOids := fun hm => hh (hs.mpr hm)
+      simp [hh, this, List.length_eq_zero_iff]
+
+/-- the SAN-suppresses-CN rule also governs the message: with a SAN extension the common name never
+    appears in it, without one the DNS SANs never do. -/
+theorem errorMsg_cn_irrelevant_with_san (c : Cert) (cn' host : Str) (ipStrs : List Str) (hs : HasSAN c) :
+    hostnameErrorMsg { c with commonName := cn' } host ipStrs = hostnameErrorMsg c host ipStrs := by
+  have h1 : hasSANExtension c = true := (hasSAN_iff c).mpr hs
+  have h2 : hasSANExtension { c with commonName := cn' } = true := h1
+  unfold hostnameErrorMsg
+  rw [h1, h2]
+  rfl
+
+theorem errorMsg_dns_irrelevant_without_san (c : Cert) (dns' : List Str) (host : Str) (ipStrs : List Str)
+    (hs : ¬ HasSAN c) :
+    hostnameErrorMsg { c with dnsNames := dns' } host ipStrs = hostnameErrorMsg c host ipStrs := by
+  have h1 : hasSANExtension c = false := by
+    cases h : hasSANExtension c with
+    | false => rfl
+    | true => exact absurd ((hasSAN_iff c).mp h) hs
+  have h2 : hasSANExtension { c with dnsNames := dns' } = false := h1
+  unfold hostnameErrorMsg
+  rw [h1, h2]
+  simp
+
+/-- `strings.Join` semantics of the IP loop: with non-empty texts (net.IP.String never returns "")
+    the `len(valid) > 0` test is the usual separator rule. -/
+theorem joinValid_eq_joinComma (l : List Str) (hne : ∀ s ∈ l, s ≠ []) : joinValid [] l = joinComma l := by
+  have key : ∀ (l : List Str) (v : Str), v ≠ [] → (∀ s ∈ l, s ≠ []) →
+      joinValid v l = v ++ (if l = [] then [] else commaSp ++ joinComma l) := by
+    intro l
+    induction l with
+    | nil => intro v _ _; simp [joinValid]
+    | cons a t ih =>
+      intro v hv hl
+      have ha : a ≠ [] := hl a List.mem_cons_self
+      have hvl : v.length > 0 := List.length_pos_iff.mpr hv
+      simp only [joinValid, hvl, if_true]
+      rw [ih _ (by simp [hv]) (fun s hs => hl s (List.mem_cons_of_mem _ hs))]
+      cases t with
+      | nil => simp [joinComma]
+      | cons b t' => simp [joinComma, List.append_assoc]
+  cases l with
+  | nil => rfl
+  | cons a t =>
+    have ha : a ≠ [] := hne a List.mem_cons_self
+    simp only [joinValid, List.length_nil, gt_iff_lt, Nat.lt_irrefl, if_false, List.nil_append]
+    rw [key t a ha (fun s hs => hne s (List.mem_cons_of_mem _ hs))]
+    cases t with
+    | nil => simp [joinComma]
+    | cons b t' => simp [joinComma]
+
+/-! ### T1: every constant of the model equals the value extracted from the current source -/
+
+/-- `hasSANExtension` names `oidExtensionSubjectAltName`, whose current value is the model's `oidSAN` -/
+theorem oidSAN_generated :
+    ZV.Generated.C09.sanOidName = "oidExtensionSubjectAltName" ∧ ZV.Generated.C09.sanOid = oidSAN := by decide
+
+/-- VerifyHostname's literals: `len(h) >= 3`, `h[0] == '['`, `h[len(h)-1] == ']'`, `h[1 : len(h)-1]` -/
+theorem verifyHostname_lits_generated :
+    ZV.Generated.C09.verifyHostnameLits =
+      [("int", [3]), ("int", [0]), ("char", [91]), ("int", [1]), ("char", [93]), ("int", [1]), ("int", [1])] := by decide
+
+/-- matchHostnames' literals: TrimSuffix ".", Split ".", wildcard label "*" (the model's `dot`, `star`) -/
+theorem matchHostnames_lits_generated :
+    ZV.Generated.C09.matchHostnamesLits =
+      [("string", [dot.toNat]), ("string", [dot.toNat]), ("int", [0]), ("int", [0]),
+       ("string", [dot.toNat]), ("string", [dot.toNat]), ("string", [star.toNat])] := by decide
+
+/-- toLowerCaseASCII's literals: 'A' 'Z' (twice) and the offset 'a' - 'A' = 32 used by `lowerByte` -/
+theorem toLowerCaseASCII_lits_generated :
+    ZV.Generated.C09.toLowerCaseASCIILits =
+      [("char", [65]), ("char", [90]), ("char", [65]), ("char", [90]), ("char", [97]), ("char", [65])] ∧
+    (∀ b : UInt8, isUpper b = (decide (65 ≤ b.toNat) && decide (b.toNat ≤ 90))) ∧ (97 - 65 = 32) := by
+  refine ⟨by decide, fun b => rfl, rfl⟩
+
+/-- the message templates of `HostnameError.Error` are the model's -/
+theorem hostnameError_lits_generated :
+    ZV.Generated.C09.hostnameErrorLits =
+      [("int", [0]), ("string", msgCannot.map (·.toNat)), ("string", msgNoIPSANs.map (·.toNat)), ("int", [0]),
+       ("string", commaSp.map (·.toNat)), ("string", commaSp.map (·.toNat)), ("int", [0]),
+       ("string", msgNoNames.map (·.toNat)), ("string", msgValidFor.map (·.toNat)), ("string", msgNot.map (·.toNat))] := by
+  decide
+
+/-- standard library constants used by the model of IP.Equal / ParseIP -/
+theorem stdlib_ip_generated :
+    ZV.Generated.C09.v4InV6Prefix = v4InV6Prefix.map (·.toNat) ∧
+    ZV.Generated.C09.ipv4len = 4 ∧ ZV.Generated.C09.ipv6len = 16 := by decide
+
+-- "[1.2.3.4]" is rejected with Host "1.2.3.4" by a certificate without IP SANs; "[x]" with Host "[x]"
+example : verifyHostname { extOids := [], dnsNames := [], ipAddresses := [], commonName := [] }
+    [91, 49, 46, 50, 46, 51, 46, 52, 93] = .ok (.reject [49, 46, 50, 46, 51, 46, 52]) := by decide
+example : rejHost [91, 120, 93] = [91, 120, 93] := by decide
+example : parseIP (candidateIP [91, 120, 93]) = none := by decide
+example : ∀ s ∈ [[49, 46, 50, 46, 51, 46, 52], [58, 58, 49]], s ≠ ([] : Str) := by decide
 
 end ZV.C09
